@@ -457,6 +457,59 @@ def bi_map(e, st, args, kw, node):
     return st, st.new_list(r)
 
 
+@dataclass(frozen=True)
+class VZipLongest(V):
+    """result of zip_longest(*rows, fillvalue=c): M tuples, tuple k = cells[k][0 .. nrows) (a list value at offset 0: no arithmetic in its element terms)"""
+    elem: Kind
+    cells: Any
+    M: Any
+    nrows: Any
+
+    def at(self, k):
+        return VList(self.elem, (z3.Select(self.cells, k),), z3.IntVal(0), self.nrows)
+
+
+def bi_itertools_zip_longest(e, st, args, kw, node):
+    """itertools.zip_longest(*rows, fillvalue=c): ASSUMED to yield, for k below the greatest row length, the tuple of the rows' k-th elements with c
+    standing in where a row is exhausted; nothing for no rows.  Result: a list (length M) of lists (length = number of rows)."""
+    if args or '*' not in kw:
+        raise Unsupported("zip_longest other than zip_longest(*rows, fillvalue=c)")
+    st, rows = _materialize(e, st, kw['*'])
+    if not isinstance(rows.elem, LIST) or len(rows.elem.elem.cols()) != 1:
+        raise Unsupported("zip_longest over rows that are not lists of scalars")
+    fill = kw.get('fillvalue')
+    if fill is None:
+        raise Unsupported("zip_longest without fillvalue")
+    e.assumptions.add('itertools.zip_longest(*rows, fillvalue=c): k-th tuple = the rows\' k-th elements, c where a row is exhausted; length = the greatest row length')
+    ek = rows.elem.elem
+    fillv = e.coerce(st, fill, ek)
+    if fillv is None:
+        raise Unsupported("zip_longest fill value of another kind than the elements")
+    M = z3.Int(fresh_name('zl.len'))
+    srt = ek.cols()[0][1]
+    A_arr = z3.Const(fresh_name('zl.cells'), z3.ArraySort(z3.IntSort(), z3.ArraySort(z3.IntSort(), srt)))
+    k, j = z3.Int(fresh_name('zk')), z3.Int(fresh_name('zj'))
+    row = lambda jj: rows.at(jj)                      # VList value of row jj
+    st.assume(M >= 0, z3.Implies(rows.n == 0, M == 0),
+              z3.ForAll([j], z3.Implies(z3.And(0 <= j, j < rows.n), row(j).n <= M), patterns=[row(j).n]),
+              z3.Implies(rows.n > 0, z3.Exists([j], z3.And(0 <= j, j < rows.n, row(j).n == M))),
+              z3.ForAll([k, j], z3.Implies(z3.And(0 <= k, k < M, 0 <= j, j < rows.n),
+                                           z3.Select(z3.Select(A_arr, k), j) == z3.If(k < row(j).n, row(j).at(k).cols()[0], fillv.cols()[0])),
+                        patterns=[z3.Select(z3.Select(A_arr, k), j)]))
+    st.notes['last_zip_longest'] = dict(cells=A_arr, M=M, rows=rows)
+    return st, VZipLongest(ek, A_arr, M, rows.n)
+
+
+bi_zip_longest = bi_itertools_zip_longest
+
+
+def bi_numpy_array(e, st, args, kw, node):
+    """np.array(list of numbers): ASSUMED to hold the same elements in the same order (indexing, len and iteration as for the list)"""
+    st, l = _materialize(e, st, args[0])
+    e.assumptions.add('numpy.array(xs): the same elements in the same order')
+    return st, st.new_list(l)
+
+
 def bi_p_tqdm_p_imap(e, st, args, kw, node):
     """p_tqdm.p_imap(f, items, num_cpus=None, disable=...): ASSUMED to return f(x) for every item, in input order, for every worker count;
     a process pool needs at least one worker (multiprocessing.Pool raises ValueError otherwise): precondition on num_cpus"""
